@@ -407,10 +407,13 @@ KB_CompressFloat(A, hasFP, d) ==
         Float arithmetic decides the comparison only up to rounding noise, so the model keeps two
         thresholds per element: PassK (surely passes) and MayK (does not surely fail).
      np.round multiplies by 10.0^d in the float type of the array: for d > MaxDec(t), or when an element
-        times 10^d leaves the float range, the error is inf / NaN and the test fails for this and every
-        later d: the search never ends (SciHang; recorded defect CompressDecimalsUnbounded).
-     _compress_data: non-finite or |round(x * 10^d)| > int32 max -> lossless ByteArray; otherwise
-        FixedPoint(10^d) + best integer chain, or ByteArray when that is not smaller. *)
+        times 10^d leaves the float range, the rounded value is inf / NaN, for this and every later d: the
+        search ends without a result (None) at the first such d (SciExhausted; until commit 03760635 it went
+        on for ever: repaired defect CompressDecimalsUnbounded).
+     _compress_data: no decimals found -> lossless ByteArray; factor 10^d (a float when it is >= 2^64, so that
+        every factor can be written by msgpack); non-finite or |round(x * 10^d)| >= 2^31 (computed and compared in
+        the float type of the array, i.e. on the very values FixedPoint casts to int32) -> lossless ByteArray;
+        otherwise FixedPoint(10^d) + best integer chain, or ByteArray when that is not smaller. *)
 Num(m, p) == [k |-> "num", m |-> m, p |-> p]
 SciNaN  == [k |-> "nan",  m |-> 0, p |-> 0]
 SciPInf == [k |-> "pinf", m |-> 0, p |-> 0]
@@ -443,27 +446,33 @@ SciCapSure(A) == Min({MaxDec(A.t)} \cup {MaxDec(A.t) - 9 - x.p : x \in SciNZ(A)}
 SciCapMay(A)  == Min({MaxDec(A.t)} \cup {MaxDec(A.t) - 8 - x.p : x \in SciNZ(A)})
 \* an array of one element is returned as it is (no search, no fixed point)
 SciTrivial(A) == Len(A.v) = 1
-SciHang(A, T) == ~SciTrivial(A) /\ SciMay(A, T) > SciCapMay(A)       \* the search surely never ends
-SciTerm(A, T) == SciTrivial(A) \/ SciNeed(A, T) <= SciCapSure(A)     \* the search surely ends, at the latest at SciNeed
+\* the search surely ends without a result: up to the last d at which the rounded values can be finite some
+\* element fails the test (the code then keeps the array losslessly)
+SciExhausted(A, T) == ~SciTrivial(A) /\ SciMay(A, T) > SciCapMay(A)
+SciTerm(A, T) == SciTrivial(A) \/ SciNeed(A, T) <= SciCapSure(A)     \* the search surely finds decimals, at the latest SciNeed
 SciDecimals(A, T) == SciNeed(A, T)                      \* = the d the code returns (inside Dom_SciDecisive)
 \* round(x * 10^d) does not fit into int32 (nine-digit mantissa: e = 0 always fits, e >= 2 never)
 SciOverflow(x, d) == IsNZ(x) /\ LET e == x.p + d IN e >= 1 /\ (e > 9 \/ Abs(x.m) > MaxInt32 \div Pow10(e))
 \* float32 only: |x * 10^d| is so close to 2^31 that float32 arithmetic cannot tell the side
 \* (2^31 - 2000 .. 2^31 + 2500: the product carries a relative error of 2^-22, and float32 rounds
-\* everything from 2^31 - 64 to 2^31 + 128 to 2^31; recorded defect CompressFloat32RangeCheck: the range check itself is done in float32,
-\* where int32 max IS 2^31, so such a value passes and is cast to INT_MIN)
+\* everything from 2^31 - 64 to 2^31 + 128 to 2^31).  The range check is done in float32 on the rounded
+\* product: a value that rounds to 2^31 is refused (lossless bytes) although SciOverflow may say it fits, one
+\* that rounds below 2^31 is cast exactly; either way the result is in SciImpl(..).ys.  (Until commit
+\* 2ef3a4f6 the check compared with float32(int32 max) = 2^31 using ">", so a product of exactly 2^31 passed
+\* and was cast to INT_MIN: repaired defect CompressFloat32RangeCheck.)
 SciZone(t, x, d) == t = 32 /\ IsNZ(x) /\ x.p + d = 1 /\ 214748200 <= Abs(x.m) /\ Abs(x.m) <= 214748450
 \* the value FixedPoint(10^d) gives back, in units 10^p
 SciFixed(x, d) ==
   IF ~IsNZ(x) THEN 0
   ELSE LET e == x.p + d IN
        IF e >= 0 THEN x.m ELSE IF -e >= 10 THEN 0 ELSE RoundHalfEven(x.m, Pow10(-e)) * Pow10(-e)
-\* code-shaped result: "Diverges", or the set of arrays compress() may hand back (lossless / fixed point:
-\* the size comparison between the two is not modelled), each as a sequence of values in units 10^p
+\* code-shaped result: the set of arrays compress() may hand back (lossless / fixed point: the size
+\* comparison between the two is not modelled), each as a sequence of values in units 10^p; no decimals
+\* found (SciExhausted): lossless only
 SciImpl(A, T) ==
-  IF SciHang(A, T) THEN [oc |-> "Diverges", ys |-> {}, fits |-> FALSE]
+  LET lossless == [i \in DOMAIN A.v |-> A.v[i].m] IN
+  IF SciExhausted(A, T) THEN [oc |-> "ok", ys |-> {lossless}, fits |-> FALSE]
   ELSE LET d == SciDecimals(A, T)
-           lossless == [i \in DOMAIN A.v |-> A.v[i].m]
            fits == ~SciTrivial(A) /\ \A i \in DOMAIN A.v : A.v[i].k = "num" /\ ~SciOverflow(A.v[i], d)
        IN [oc |-> "ok", fits |-> fits,
            ys |-> {lossless} \cup (IF fits THEN {[i \in DOMAIN A.v |-> SciFixed(A.v[i], d)]} ELSE {})]
@@ -475,11 +484,19 @@ AcceptSci(t, T, x, y) ==
   ELSE IF x.m = 0 THEN y.k = "num" /\ y.fx = 0 /\ y.ex
   ELSE y.k = "num" /\ Abs(y.fx - x.m) <= SciTol(t, T, x.m)
 (* ------------------------------------------------------------------ recorded defects *)
-KB_SciUnbounded(A, T) == SciHang(A, T)
-\* compress() builds the factor as the Python integer 10^d; msgpack has no integers >= 2^64, so the
-\* returned BinaryCIFData cannot be written when d >= 20
-KB_SciFactor(A, T) == ~SciTrivial(A) /\ ~SciHang(A, T) /\ SciDecimals(A, T) >= 20
-KB_SciFloat32Range(A, T) == ~SciTrivial(A) /\ ~SciHang(A, T) /\ \E i \in DOMAIN A.v : SciZone(A.t, A.v[i], SciDecimals(A, T))
+\* the search for the decimals never ended when SciExhausted(A, T); repaired by commit 03760635 (/repo):
+\* _get_decimal_places returns None as soon as the rounded values are not finite, compress() then keeps the
+\* array losslessly.  No call may diverge any more.
+KB_SciUnbounded(A, T) == FALSE
+\* compress() built the factor as the Python integer 10^d; msgpack has no integers >= 2^64, so the returned
+\* BinaryCIFData could not be written when d >= 20 (formerly: ~SciTrivial(A) /\ ~SciExhausted(A, T) /\
+\* SciDecimals(A, T) >= 20).  Repaired by commit e5d2e79a (/repo): a factor >= 2^64 is handed over as a float,
+\* which msgpack writes; the msgpack round trip must give the same array for every number of decimals.
+KB_SciFactor(A, T) == FALSE
+\* a float32 value in SciZone came back with the wrong sign (formerly: ~SciTrivial(A) /\ ~SciExhausted(A, T) /\
+\* \E i \in DOMAIN A.v : SciZone(A.t, A.v[i], SciDecimals(A, T))).  Repaired by commit 2ef3a4f6 (/repo): the
+\* scaled values are compared with 2^31 (exact in float32) using ">=".
+KB_SciFloat32Range(A, T) == FALSE
 (* ------------------------------------------------------------------ domain *)
 Dom_SciElem(t, x) ==
   CASE x.k = "num" -> \/ x.m = 0 /\ x.p = 0
@@ -493,6 +510,6 @@ Dom_SciArray(A) == A.t \in FloatTypes /\ A.v # <<>> /\ \A i \in DOMAIN A.v : Dom
 \* tolerances 1/T well above the float noise
 Dom_SciTol(t, T) == 2 <= T /\ T <= (IF t = 32 THEN 10000 ELSE 1000000)
 \* float arithmetic decides every comparison of the search the way decimal arithmetic does
-Dom_SciDecisive(A, T) == SciTrivial(A) \/ SciHang(A, T) \/ (SciTerm(A, T) /\ SciNeed(A, T) = SciMay(A, T))
+Dom_SciDecisive(A, T) == SciTrivial(A) \/ SciExhausted(A, T) \/ (SciTerm(A, T) /\ SciNeed(A, T) = SciMay(A, T))
 Dom_Sci(A, T) == Dom_SciArray(A) /\ Dom_SciTol(A.t, T) /\ Dom_SciDecisive(A, T)
 =============================================================================
